@@ -1,11 +1,13 @@
 (* Extraction of the executable models.  ExtrOcamlBasic only; no Extract Constant. *)
 From Coq Require Extraction.
 From Coq Require Import ExtrOcamlBasic.
-From Lou Require Model.Hyph Model.HyphSpec Model.Log Model.Resolve Model.Meta Model.Engine.
+From Lou Require Model.Hyph Model.HyphSpec Model.Log Model.Resolve Model.Meta Model.Engine Model.BufPlan Gen.GAlloc.
 Extraction Language OCaml.
 Extraction "../ocaml/model.ml"
   Hyph.build Hyph.walk Hyph.hyphenate Hyph.split_token HyphSpec.Hyph_spec
   Log.lrun Log.linit
   Resolve.resolve_list Resolve.resolve_sub Resolve.search_path Resolve.candidates
   Meta.score Meta.find_table Meta.find_tables Meta.get_info
-  Engine.translate_impl Engine.translate_ref Table.mkEntry.
+  Engine.translate_impl Engine.translate_ref Table.mkEntry
+  BufPlan.provided GAlloc.size_typebuf GAlloc.size_wordBuffer GAlloc.size_emphasisBuffer GAlloc.size_destSpacing
+  GAlloc.size_passbuf GAlloc.size_posMapping1 GAlloc.size_posMapping2 GAlloc.size_posMapping3.
